@@ -234,6 +234,14 @@ pub fn run(r: &mut Runner) {
     ] {
         fixed.push(Case::Parse { text: t.to_string() });
     }
+    // very long numbers: fractions of 20 … 400 digits, integer parts of 20 … 60 digits
+    for n in [19usize, 20, 38, 39, 40, 64, 127, 128, 129, 200, 400] {
+        fixed.push(Case::Parse { text: format!("1.{}s", "3".repeat(n)) });
+        fixed.push(Case::Parse { text: format!("0.{}1ms", "0".repeat(n)) });
+        fixed.push(Case::Parse { text: format!("-1.5{}h", "0".repeat(n)) });
+        fixed.push(Case::Parse { text: format!("{}1ns", "0".repeat(n)) });
+        fixed.push(Case::Parse { text: format!("{}ns", "9".repeat(n)) });
+    }
     r.sweep("boundary-print-and-fixed-strings", fixed, check);
     {
         let ops = ["+", "-", "==", "!=", "<", "<=", ">", ">="];
